@@ -173,6 +173,8 @@ mod verif_c18_trunc {
     trunc_harness!(truncation_d1, 1);
     trunc_harness!(truncation_d3, 3);
     trunc_harness!(truncation_d5, 5);
+    trunc_harness!(truncation_d2, 2);
+    trunc_harness!(truncation_d4, 4);
 }
 
 #[cfg(kani)]
@@ -427,7 +429,7 @@ def build(S: Sources) -> Unit:
         KaniHarness("verif_c18::from_picos_largest_unit", "complete", covers="TimeScale::from_picos, TimeScale::picos"),
         KaniHarness("verif_c18::suffixes", "complete", covers="TimeScale::suffix"),
         *[KaniHarness(f"verif_c18_trunc::truncation_d{d}", "bounded", bound=f"renderings of {d} integer digits, a dot and six fraction digits (every digit symbolic), 4 significant figures",
-                      covers="util::fmt::format_f64 (truncation rule; f64::to_string replaced by the rendering)") for d in (1, 3, 5)],
+                      covers="util::fmt::format_f64 (truncation rule; f64::to_string replaced by the rendering)", tier=("quick" if d in (1, 3, 5) else "thorough")) for d in (1, 2, 3, 4, 5)],
         KaniHarness("verif_c18_scale::scale_value_prefix", "complete", covers="util::fmt::scale_value (every f64 >= 0, both byte formats)"),
         KaniHarness("verif_c18_scale::scale_suffixes", "complete", covers="util::fmt::Scale::suffix (byte sizes)"),
         KaniHarness("verif_c18_tp::throughput_duration_conversion", "complete", covers="AnyCounter::display_throughput (the duration handed to the throughput formatter, every u128)"),
